@@ -51,6 +51,7 @@ Proof.
   destruct (loop_function_simulation dl_M dl_fn flow_depth dl_body dl_e dl_tf dl_F eq_refl eq_refl eq_refl eq_refl eq_refl dl_tl dl_te eq_refl eq_refl eq_refl dl_lits_exact Hnan)
     with (P := P) (ws := dl_ws) (g := dl_g) (vs := dl_vs) (fuel := 30) (fl := fl) (st' := st') as (v & vs' & -> & Hrun & _).
   - repeat constructor; cbn; auto.
+  - cbn; tauto.
   - repeat constructor.
   - intros x Hx Hg. cbn in Hx, Hg. destruct Hg as [Hg|[]]. subst x. destruct Hx as [Hx|[Hx|[]]]; inversion Hx.
   - intros x p H. unfold genvl in H. cbn [dl_M m_globals map find fst snd] in H. destruct (String.eqb_spec "g" x) as [<-|Hne]; [|discriminate]. inversion H; subst p. cbn.
